@@ -30,7 +30,25 @@ TRICKY = [
 ]
 
 
+def gen_tie_family(rng):
+    """Symmetric alleles with non-dyadic data: exact ties whose floating-point objectives may differ
+    in the last bit (the gap test must not lose them)."""
+    nb = rng.randint(3, 7)
+    c = rng.choice([0.45, 0.15, 0.3, 0.35, 0.7, 1.1, 0.05, 2.45])
+    names = [f"A_{j}_0" for j in range(nb)]
+    errs = [{"name": f"E_{j}", "coefs": {str(j): 1}, "target": c, "w": rng.choice([1, 1, 1, 0.7])} for j in range(nb)]
+    w = errs[0]["w"]
+    for e in errs:
+        e["w"] = w
+    pen = rng.choice([0, 0.1, 0.3])
+    return {"bins": names, "errs": errs, "card": [{"idx": list(range(nb)), "op": "==", "k": rng.choice([1, 1, 2])}],
+            "order": [], "lin": {str(j): pen for j in range(nb)} if pen else {}, "prods": [],
+            "gap": rng.choice([0, 0, 0.1]), "limit": None}
+
+
 def gen_model(rng):
+    if rng.random() < 0.2:
+        return gen_tie_family(rng)
     nb = rng.randint(2, 8)
     names = []
     pool = list(TRICKY)
